@@ -47,7 +47,8 @@ PROPS["C10"] = {
     "functions": ["machine::bus::Bus::write", "machine::bus::Bus::read", "Bus::input_fc/fd/fe/ff", "Bus::cpu_reset / master_reset (RAM frame)", "Bus::get_level_interrupt / take_edge_interrupt (RAM frame)"],
     "timeout": 600,
     "technique": "function contracts (postcondition + whole-state frame) on Bus::write / Bus::read / input setters over a fully symbolic Bus, discharged by Kani/CBMC",
-    "level_text": "Proof: per-call postcondition and whole-bus frame equality for every address x byte over a fully symbolic bus state (240 symbolic RAM bytes, all registers, whole board); loop-free, complete. 'Until overwritten' follows by induction from the RAM frame of every mutator.",
+    "level_text": "Proof: per-call postcondition and whole-bus frame equality for every address x byte over a fully symbolic bus state (240 symbolic RAM bytes, all registers, whole board); loop-free, complete. 'Until overwritten' and last-write-wins over any history of bus operations: induction over the per-call RAM clauses, mechanised in Verus (verus/lemma_history.rs).",
+    "verus": "lemmas_history",
     "level_note": "Trusted: Kani/CBMC, rustc, bus_ref (address map transcribed from the Bus doc comment and the property statement). What the board does with a port write is C14's contract; C10 only proves the write reaches the port and nothing outside the board moves.",
     "samples": [
         {"obligation": "C10.W.ram.frame", "text": "addr<=0xEF ==> write(addr,byte) yields exactly old[ram[addr]:=byte] (every other field bit-identical)", "domain": "symbolic Bus x 240 addresses x 256 bytes"},
